@@ -2,7 +2,7 @@
    Statements only; proofs are in Proofs/C01.v and Proofs/C01_delim.v. *)
 From Coq Require Import ZArith List Bool Arith.
 From Coq Require Import String.
-From BNP Require Import Base.Prims Model.C01 Proofs.C01 Proofs.C01_delim Proofs.C01_lines Proofs.C01_mfasta Proofs.C01_fuel Gen.C01 Bridge.C01.
+From BNP Require Import Base.Prims Model.C01 Proofs.C01 Proofs.C01_delim Proofs.C01_lines Proofs.C01_mfasta Proofs.C01_mfrecords Proofs.C01_fuel Gen.C01 Bridge.C01.
 Import ListNotations.
 
 (* T1 (every format, both reader modes, the repaired and the pinned code): whatever the chunk size,
@@ -76,6 +76,17 @@ Theorem C01_mfasta_chunks_exact :
         /\ Forall (fun c => ends_nl c = true /\ nthZ c 0 = 62%Z) chunks).
 Proof. exact mfasta_chunks_exact. Qed.
 Print Assumptions C01_mfasta_chunks_exact.
+
+(* T5' (wrapped FASTA, entries): with the reference entry parser of C01_mfrecords (a '>' line opens an entry, every other
+   line is glued to the current entry's sequence), the entries of the chunks, concatenated in order, are exactly the
+   entries of the whole file - for every file, chunk size >= 1 and both modes. *)
+Theorem C01_mfasta_records_exact :
+  forall m k file chunks dropped app lr,
+    (1 <= k)%nat ->
+    read_chunks true MultiFasta m k file = Done chunks dropped app lr ->
+    List.concat (map entries_of chunks) = entries_of (norm_text file).
+Proof. exact mfasta_records_exact. Qed.
+Print Assumptions C01_mfasta_records_exact.
 
 (* T6 (termination of the reader, pinned AND repaired code): the fuel the model gives the chunk loop and the
    accumulation loop is never exhausted, for EVERY file, format (n-line records with any n, delimited, wrapped FASTA),
